@@ -1151,6 +1151,7 @@ End C06More.
 
 (* ------------------------------------------------------------------------------------------ *)
 (* 7. C07: inhabitation, narrowing two shapes of one value, soundness of derive                 *)
+(*    (checker as of 05372e0: last field wins, select default, parameters shadow, ...)          *)
 (* ------------------------------------------------------------------------------------------ *)
 Section C07.
   Variable fo : float_ops.
@@ -1167,24 +1168,61 @@ Section C07.
   Lemma inhabits_empty_narrowed (v : value) : inhabits fo v (SNarrowed []).
   Proof. reflexivity. Qed.
 
-  (* a literal value inhabits its own shape *)
-  Lemma first_decl_nodup (fs : list (bytes * value)) (g : value -> shape) k x (P : shape -> bool) :
-    nodup_names (names fs) = true -> In (k, x) fs ->
-    (fix first (l : list (bytes * shape)) : bool :=
-       match l with
-       | [] => false
-       | (k', t) :: l' => if bytes_eqb k k' then P t else first l'
-       end) (map (fun '(k, y) => (k, g y)) fs) = P (g x).
+  (* ---- association lists of shapes ---- *)
+  Lemma st_get_app k (a c : list (bytes * shape)) :
+    st_get k (a ++ c) = match st_get k a with Some x => Some x | None => st_get k c end.
+  Proof. induction a as [|[k' t] a IH]; simpl; auto. destruct (bytes_eqb k k'); auto. Qed.
+
+  Lemma st_get_in k (l : list (bytes * shape)) t : st_get k l = Some t -> In (k, t) l.
   Proof.
-    induction fs as [|[k' y] fs IH]; simpl; intros N I; [contradiction|].
-    apply andb_true_iff in N. destruct N as [N1 N2]. destruct I as [I|I].
-    - inversion I; subst. now rewrite bytes_eqb_refl.
-    - destruct (bytes_eqb k k') eqn:E; [|auto].
-      apply bytes_eqb_spec in E. subst k'. exfalso. apply negb_true_iff in N1.
-      assert (existsb (bytes_eqb k) (names fs) = true).
-      { apply existsb_exists. exists k. split; [|apply bytes_eqb_refl]. change k with (fst (k, x)). now apply in_map. }
-      congruence.
+    induction l as [|[k' t'] l IH]; simpl; intros H; [discriminate|].
+    destruct (bytes_eqb k k') eqn:E; [apply bytes_eqb_spec in E; inversion H; subst; now left|right; auto].
   Qed.
+
+  Lemma nodup_names_NoDup l : nodup_names l = true -> NoDup l.
+  Proof.
+    induction l as [|k l IH]; simpl; intros H; constructor; apply andb_true_iff in H; destruct H as [H1 H2]; auto.
+    intros I. apply negb_true_iff in H1.
+    assert (existsb (bytes_eqb k) l = true) by (apply existsb_exists; exists k; split; auto; apply bytes_eqb_refl).
+    congruence.
+  Qed.
+
+  Lemma st_get_NoDup (l : list (bytes * shape)) k t :
+    NoDup (map fst l) -> In (k, t) l -> st_get k l = Some t.
+  Proof.
+    induction l as [|[k' t'] l IH]; simpl; intros N I; [contradiction|].
+    inversion N; subst. destruct I as [I|I].
+    - inversion I; subst. now rewrite bytes_eqb_refl.
+    - destruct (bytes_eqb k k') eqn:E; auto.
+      apply bytes_eqb_spec in E. subst k'. exfalso. apply H1. change k with (fst (k, t)). now apply in_map.
+  Qed.
+
+  Lemma st_get_rev_NoDup (l : list (bytes * shape)) k t :
+    NoDup (map fst l) -> In (k, t) l -> st_get k (rev l) = Some t.
+  Proof.
+    intros N I. apply st_get_NoDup.
+    - rewrite map_rev. now apply NoDup_rev.
+    - now apply in_rev in I.
+  Qed.
+
+  (* the "last declaration" loop of inhabitsb *)
+  Lemma last_st_get (ss : list (bytes * shape)) k (P : shape -> bool) : forall acc,
+    (fix last (fs : list (bytes * shape)) (acc : bool) : bool :=
+       match fs with
+       | [] => acc
+       | (k', t) :: fs' => last fs' (if bytes_eqb k k' then P t else acc)
+       end) ss acc
+    = match st_get k (rev ss) with Some t => P t | None => acc end.
+  Proof.
+    induction ss as [|[k' t] ss IH]; intros acc; simpl; auto.
+    rewrite IH. rewrite st_get_app. destruct (st_get k (rev ss)); auto.
+    simpl. destruct (bytes_eqb k k'); auto.
+  Qed.
+
+  Lemma inh_tuple_unfold (vs : list (bytes * value)) ss :
+    inh (VTuple vs) (STuple ss)
+    = forallb (fun '(k, x) => match st_get k (rev ss) with Some t => inh x t | None => false end) vs.
+  Proof. simpl. apply forallb_ext_in. intros [k x] _. apply last_st_get. Qed.
 
   Lemma value_inhabits_own_shape : forall v, lit v = true -> inhabits fo v (sh v).
   Proof.
@@ -1193,22 +1231,24 @@ Section C07.
     - simpl. rewrite Forall_forall in IH. rewrite forallb_forall. intros x I.
       rewrite existsb_exists. exists (sh x). split; [now apply in_map|].
       apply IH; auto. eapply lit_list_in; eauto.
-    - simpl. rewrite Forall_forall in IH. rewrite forallb_forall. intros [k x] I.
-      rewrite (first_decl_nodup fs sh k x (inh x) (lit_tuple_nodup fo fs L) I).
-      apply (IH (k, x) I). eapply lit_tuple_in; eauto.
+    - change (sh (VTuple fs)) with (STuple (map (fun '(k, y) => (k, sh y)) fs)).
+      rewrite inh_tuple_unfold. rewrite Forall_forall in IH. rewrite forallb_forall. intros [k x] I.
+      rewrite (st_get_rev_NoDup (map (fun '(k, y) => (k, sh y)) fs) k (sh x)).
+      + apply (IH (k, x) I). eapply lit_tuple_in; eauto.
+      + rewrite map_map. erewrite map_ext; [apply nodup_names_NoDup, (lit_tuple_nodup fo fs L)|].
+        intros [a c]; reflexivity.
+      + apply in_map_iff. exists (k, x). auto.
   Qed.
 
   (* ---- narrow_compat is FALSE: one value, two shapes it inhabits, narrowing fails ---- *)
-  (* the empty list inhabits [int] and [str]; ucg witness:
+  (* the empty list inhabits [int] and [str]; ucg witness (Known class K2):
        let r = filter(func(x) => false, [1]) + filter(func(x) => false, ["a"]);   evaluates to [], build: type error *)
   Lemma narrow_compat_refuted_list :
     exists (v : value) s1 s2, inhabits fo v s1 /\ inhabits fo v s2 /\ is_type_err (narrow [] s1 s2).
   Proof. exists (VList []), (SList [SInt]), (SList [SStr]). repeat split; reflexivity. Qed.
-  (* [1] inhabits List[int,str] and List[int,bool]: neither element set is contained in the other *)
   Lemma narrow_compat_refuted_list_incomparable :
     exists (v : value) s1 s2, inhabits fo v s1 /\ inhabits fo v s2 /\ is_type_err (narrow [] s1 s2).
   Proof. exists (VList [VInt 1]), (SList [SInt; SStr]), (SList [SInt; SBool]). repeat split; reflexivity. Qed.
-  (* {a = 1} inhabits {a:int, b:str} and {a:int, c:str}: incomparable field sets *)
   Lemma narrow_compat_refuted_tuple :
     exists (v : value) s1 s2, inhabits fo v s1 /\ inhabits fo v s2 /\ is_type_err (narrow [] s1 s2).
   Proof.
@@ -1217,7 +1257,6 @@ Section C07.
   Qed.
 
   (* ---- repaired statements ---- *)
-  (* (1) primitive shapes: two primitive shapes of one value are the same shape and narrow to it *)
   Theorem narrow_compat_prim : forall (v : value) s1 s2 st,
     is_prim s1 = true -> is_prim s2 = true -> inhabits fo v s1 -> inhabits fo v s2 ->
     narrow_st st s1 s2 = (s1, st) /\ s1 = s2.
@@ -1226,30 +1265,32 @@ Section C07.
     destruct s1; try discriminate; destruct s2; try discriminate; destruct v; try discriminate;
       (split; [unfold narrow_st, narrow_fuel; rewrite Nat.add_comm; reflexivity | reflexivity]).
   Qed.
-  (* (2) the exact shapes of literal values: see narrow_refl_lit (a value against itself) and narrow_lit
-     (two values: compatible iff same_shape) above. *)
-  (* (3) a top on either side *)
   Theorem narrow_compat_top_l : forall s2 st, is_err s2 = false -> ref_name s2 = None -> hole_name s2 = None ->
     ~ is_type_err (narrow st SAny s2).
   Proof. intros s2 st H1 H2 H3. rewrite narrow_any_l; auto. unfold is_type_err. congruence. Qed.
 
   (* ---- soundness of derive on the first-order fragment ---- *)
+  Definition st_ok (st : symtab) : Prop := forall x s, st_get x st = Some s -> hfb s = true.
   Definition env_ok (sc : scope fo) (st : symtab) : Prop :=
-    forall x v, lookup fo x sc = Some v ->
-                exists s, st_get x st = Some s /\ groundb s = true /\ inh v s = true.
+    forall x v, lookup fo x sc = Some v -> exists s, st_get x st = Some s /\ inh v s = true.
 
-  Lemma ground_not_err s : groundb s = true -> is_err s = false.
+  (* what the soundness proof establishes for an expression and its shape *)
+  Definition sound_at (st : symtab) (e : expr) (s : shape) : Prop :=
+    (forall df, expr_depth e <= df -> derive_f df e st = (s, st))
+    /\ hfb s = true
+    /\ (forall fuel c v, strict fo c = true -> env_ok (sc fo c) st -> eval fo fuel c e = Ok v -> inh v s = true).
+
+  Lemma inh_not_err (v : value) s : inh v s = true -> is_err s = false.
   Proof. destruct s; simpl; auto; discriminate. Qed.
 
-  Lemma narrow_st_prim st s : is_prim s = true -> narrow_st st s s = (s, st).
+  Lemma narrow_st_prims st a c :
+    is_prim a = true -> is_prim c = true ->
+    narrow_st st a c = ((if prim_same a c then a else SErr EType), st).
   Proof.
-    destruct s; try discriminate; intros _; unfold narrow_st, narrow_fuel; rewrite Nat.add_comm; reflexivity.
+    destruct a; try discriminate; destruct c; try discriminate; intros _ _;
+      unfold narrow_st, narrow_fuel; rewrite Nat.add_comm; reflexivity.
   Qed.
 
-  Lemma le_S_depth e df : expr_depth e <= df -> exists df', df = S df'.
-  Proof. destruct e; simpl; intros H; (destruct df; [lia|eauto]). Qed.
-
-  (* mapM over a list *)
   Lemma mapM_ok {A B} (f : A -> res B) l r : mapM f l = Ok r -> Forall2 (fun a x => f a = Ok x) l r.
   Proof.
     revert r. induction l as [|a l IH]; simpl; intros r H.
@@ -1258,13 +1299,32 @@ Section C07.
       destruct (mapM f l) eqn:E2; try discriminate. simpl in H. inversion H; subst. constructor; auto.
   Qed.
 
-  (* tuple literals without repeated field *)
-  Fixpoint nodupE (l : list (bytes * expr)) : bool :=
-    match l with
-    | [] => true
-    | (k, _) :: l' => negb (existsb (fun '(k', _) => bytes_eqb k k') l') && nodupE l'
-    end.
+  Lemma mapM_keep_snd {A B} (g : A -> res B) (keep : B -> bool) l r :
+    mapM (fun v => do o <- g v; Ok (keep o, v)) l = Ok r -> map snd r = l.
+  Proof.
+    revert r. induction l as [|a l IH]; simpl; intros r H.
+    - now inversion H.
+    - destruct (g a); simpl in H; try discriminate.
+      destruct (mapM _ l) eqn:E; simpl in H; try discriminate. inversion H; subst. simpl. f_equal. auto.
+  Qed.
 
+  Lemma forall2_exists {A B} (R : A -> B -> Prop) l :
+    (forall a, In a l -> exists x, R a x) -> exists l', Forall2 R l l'.
+  Proof.
+    induction l as [|a l IH]; intros H.
+    - exists []. constructor.
+    - destruct (H a (or_introl eq_refl)) as [x Hx]. destruct IH as [l' Hl']. { intros; apply H; now right. }
+      exists (x :: l'). constructor; auto.
+  Qed.
+
+  Lemma forall2_in_l {A B} (R : A -> B -> Prop) l l' a : Forall2 R l l' -> In a l -> exists x, In x l' /\ R a x.
+  Proof.
+    induction 1 as [|a0 x0 l l' H F IH]; intros I; [contradiction|].
+    destruct I as [->|I]; [exists x0; split; [now left|auto]|].
+    destruct (IH I) as (x & Ix & Rx). exists x. split; [now right|auto].
+  Qed.
+
+  (* tuple literals without repeated field *)
   Lemma merge_field_fresh (a : list (bytes * value)) k v :
     existsb (bytes_eqb k) (names a) = false -> merge_field fo a k v = Ok (a ++ [(k, v)]).
   Proof.
@@ -1283,7 +1343,7 @@ Section C07.
   Lemma tuple_lit_spec (ev : expr -> res value) fs :
     forall acc r,
       fold_left (fun acc '(k, e) => do a <- acc; do v <- ev e; merge_field fo a k v) fs (Ok acc) = Ok r ->
-      nodupE fs = true ->
+      nodup_fields fs = true ->
       (forall k e, In (k, e) fs -> existsb (bytes_eqb k) (names acc) = false) ->
       exists vs, Forall2 (fun ke kv => fst ke = fst kv /\ ev (snd ke) = Ok (snd kv)) fs vs /\ r = acc ++ vs.
   Proof.
@@ -1307,35 +1367,19 @@ Section C07.
         * rewrite R. now rewrite <- app_assoc.
   Qed.
 
-  Lemma nodupE_names (fs : list (bytes * expr)) : nodupE fs = nodup_names (map fst fs).
+  Lemma nodup_fields_names (fs : list (bytes * expr)) : nodup_fields fs = nodup_names (map fst fs).
   Proof.
     induction fs as [|[k e] fs IH]; simpl; auto. rewrite IH. f_equal. f_equal.
     clear IH. induction fs as [|[k' e'] fs IH]; simpl; auto. now rewrite IH.
   Qed.
 
-  Lemma first_st_get (ss : list (bytes * shape)) k (P : shape -> bool) :
-    (fix first (l : list (bytes * shape)) : bool :=
-       match l with
-       | [] => false
-       | (k', t) :: l' => if bytes_eqb k k' then P t else first l'
-       end) ss = match st_get k ss with Some t => P t | None => false end.
-  Proof. induction ss as [|[k' t] ss IH]; simpl; auto. destruct (bytes_eqb k k'); auto. Qed.
-
   Lemma inh_tuple_forall2 (vs : list (bytes * value)) (ss : list (bytes * shape)) :
     Forall2 (fun kv ks => fst kv = fst ks /\ inh (snd kv) (snd ks) = true) vs ss ->
-    nodup_names (names vs) = true -> inh (VTuple vs) (STuple ss) = true.
+    NoDup (map fst ss) -> inh (VTuple vs) (STuple ss) = true.
   Proof.
-    intros F N. simpl. rewrite forallb_forall. intros [k x] I. rewrite first_st_get.
-    revert N k x I. induction F as [|[k0 x0] [k1 s1] vs ss [H1 H2] F IH]; intros N k x I; [contradiction|].
-    simpl in *. subst k1. apply andb_true_iff in N. destruct N as [N1 N2].
-    destruct I as [I|I].
-    - inversion I; subst. now rewrite bytes_eqb_refl.
-    - destruct (bytes_eqb k k0) eqn:E.
-      + apply bytes_eqb_spec in E. subst k0. exfalso. apply negb_true_iff in N1.
-        assert (existsb (bytes_eqb k) (names vs) = true).
-        { apply existsb_exists. exists k. split; [|apply bytes_eqb_refl]. change k with (fst (k, x)). now apply in_map. }
-        congruence.
-      + apply IH; auto.
+    intros F N. rewrite inh_tuple_unfold. rewrite forallb_forall. intros [k x] I.
+    destruct (forall2_in_l _ _ _ _ F I) as ([k' t] & It & E & Hi). simpl in *. subst k'.
+    now rewrite (st_get_rev_NoDup ss k t N It).
   Qed.
 
   Lemma inh_list_forall2 (vs : list value) (ss : list shape) :
@@ -1366,16 +1410,168 @@ Section C07.
           inversion H; subst; split; reflexivity.
   Qed.
 
-  Lemma ground_inh_bool s x : groundb s = true -> inh (VBool x) s = true -> s = SBool \/ s = SAny.
-  Proof. destruct s; simpl; intros; try discriminate; auto. Qed.
-
-  Lemma ground_inh_tuple s (fs : list (bytes * value)) :
-    groundb s = true -> inh (VTuple fs) s = true -> (exists ss, s = STuple ss) \/ s = SAny.
-  Proof. destruct s; simpl; intros; try discriminate; eauto. Qed.
-
   Lemma derive_st_of_f e st s :
     (forall df, expr_depth e <= df -> derive_f df e st = (s, st)) -> derive st e = s.
   Proof. intros H. unfold derive, derive_st. rewrite H by lia. reflexivity. Qed.
+
+  (* ---- one_or_narrowed ---- *)
+  Lemma one_or_narrowed_inh (v : value) results r :
+    In r results -> inh v r = true -> inh v (one_or_narrowed results) = true.
+  Proof.
+    intros I H. destruct results as [|x [|y l]]; [contradiction| |].
+    - destruct I as [->|[]]. exact H.
+    - change (inh v (one_or_narrowed (x :: y :: l))) with (existsb (inh v) (x :: y :: l)).
+      apply existsb_exists. eauto.
+  Qed.
+  Lemma one_or_narrowed_hf results :
+    (forall r, In r results -> hfb r = true) -> hfb (one_or_narrowed results) = true.
+  Proof.
+    intros H. destruct results as [|x [|y l]]; [reflexivity|apply H; now left|].
+    change (hfb (one_or_narrowed (x :: y :: l))) with (forallb hfb (x :: y :: l)).
+    apply forallb_forall. exact H.
+  Qed.
+  Lemma inh_narrowed_in (v : value) l s : In s l -> inh v s = true -> inh v (SNarrowed l) = true.
+  Proof.
+    intros I H. destruct l as [|x l]; [reflexivity|].
+    change (inh v (SNarrowed (x :: l))) with (existsb (inh v) (x :: l)). apply existsb_exists. eauto.
+  Qed.
+  Lemma inh_narrowed_cons (v : value) x l :
+    inh v (SNarrowed (x :: l)) = true -> exists t, In t (x :: l) /\ inh v t = true.
+  Proof.
+    change (inh v (SNarrowed (x :: l))) with (existsb (inh v) (x :: l)). intros H.
+    apply existsb_exists in H. exact H.
+  Qed.
+
+  (* ---- selection: what derive_dot_expression answers on hole-free shapes ---- *)
+  Definition dot_sym (k : bytes) (ls : shape) : shape :=
+    match ls with
+    | STuple fs => match st_get k (rev fs) with Some s => s | None => SErr EType end
+    | SList _ | SListAny => SErr EType
+    | SHole _ => SAny
+    | SAny | SNarrowed [] => SAny
+    | SNarrowed types =>
+      one_or_narrowed
+        (flat_map (fun t => match t with
+                            | STuple fs => flat_map (fun '(n, s) => if bytes_eqb n k then [s] else []) fs
+                            | SHole _ | SAny | SNarrowed _ => [SAny]
+                            | _ => [] end) types)
+    | SErr _ => ls
+    | _ => SErr EType
+    end.
+  Definition dot_int (ls : shape) : shape :=
+    match ls with
+    | STuple _ => SErr EType
+    | SList _ | SListAny => elem_shape ls
+    | SHole _ => SAny
+    | SAny | SNarrowed [] => SAny
+    | SNarrowed types =>
+      one_or_narrowed
+        (flat_map (fun t => match t with
+                            | SList _ | SListAny => [elem_shape t]
+                            | SHole _ | SAny | SNarrowed _ => [SAny]
+                            | _ => [] end) types)
+    | SErr _ => ls
+    | _ => SErr EType
+    end.
+  Definition dot_call (ls : shape) : shape :=
+    match ls with
+    | STuple _ | SHole _ | SAny | SNarrowed _ => SAny
+    | SErr _ => ls
+    | _ => SErr EType
+    end.
+
+  Lemma dot_f_sym n ls k st : hfb ls = true -> dot_f (S n) ls (ESym k) st = (dot_sym k ls, st).
+  Proof. intros H. destruct ls; try discriminate; try reflexivity; destruct ts; reflexivity. Qed.
+  Lemma dot_f_str n ls k st : hfb ls = true -> dot_f (S n) ls (EStr k) st = (dot_sym k ls, st).
+  Proof. intros H. destruct ls; try discriminate; try reflexivity; destruct ts; reflexivity. Qed.
+  Lemma dot_f_int n ls i st : hfb ls = true -> dot_f (S n) ls (EInt i) st = (dot_int ls, st).
+  Proof. intros H. destruct ls; try discriminate; try reflexivity; destruct ts; reflexivity. Qed.
+  Lemma dot_f_call n ls fe args st : hfb ls = true -> dot_f (S n) ls (ECall fe args) st = (dot_call ls, st).
+  Proof. intros H. destruct ls; try discriminate; reflexivity. Qed.
+  Lemma dot_f_copy n ls t fs st : hfb ls = true -> dot_f (S n) ls (ECopy t fs) st = (dot_call ls, st).
+  Proof. intros H. destruct ls; try discriminate; reflexivity. Qed.
+
+  Lemma hf_tuple_in fs k t : hfb (STuple fs) = true -> In (k, t) fs -> hfb t = true.
+  Proof. simpl. intros H I. rewrite forallb_forall in H. apply (H (k, t) I). Qed.
+
+  Lemma hf_dot_sym k ls : hfb ls = true -> hfb (dot_sym k ls) = true.
+  Proof.
+    intros H. destruct ls; try discriminate; try reflexivity.
+    - simpl. destruct (st_get k (rev fs)) eqn:E; auto.
+      apply st_get_in in E. apply in_rev in E. eapply hf_tuple_in; eauto.
+    - destruct ts as [|t ts]; [reflexivity|]. unfold dot_sym.
+      apply one_or_narrowed_hf. intros r I. apply in_flat_map in I. destruct I as (t0 & It & Ir).
+      change (forallb hfb (t :: ts) = true) in H. rewrite forallb_forall in H. specialize (H t0 It).
+      destruct t0; simpl in Ir; try contradiction; try (destruct Ir as [<-|[]]; reflexivity).
+      apply in_flat_map in Ir. destruct Ir as ([n s] & Is & Hs).
+      destruct (bytes_eqb n k); [destruct Hs as [<-|[]]|contradiction]. eapply hf_tuple_in; eauto.
+  Qed.
+
+  Lemma hf_elem_shape t : hfb t = true -> hfb (elem_shape t) = true.
+  Proof. destruct t; simpl; auto. Qed.
+
+  Lemma hf_dot_int ls : hfb ls = true -> hfb (dot_int ls) = true.
+  Proof.
+    intros H. destruct ls; try discriminate; try reflexivity.
+    - exact H.
+    - destruct ts as [|t ts]; [reflexivity|]. unfold dot_int.
+      apply one_or_narrowed_hf. intros r I. apply in_flat_map in I. destruct I as (t0 & It & Ir).
+      change (forallb hfb (t :: ts) = true) in H. rewrite forallb_forall in H. specialize (H t0 It).
+      destruct t0; simpl in Ir; try contradiction; destruct Ir as [<-|[]]; try reflexivity.
+      exact H.
+  Qed.
+
+  Lemma hf_dot_call ls : hfb ls = true -> hfb (dot_call ls) = true.
+  Proof. destruct ls; simpl; auto. Qed.
+
+  Lemma dot_sym_sound ls k (fs : list (bytes * value)) v :
+    hfb ls = true -> inh (VTuple fs) ls = true -> lookup fo k fs = Some v -> inh v (dot_sym k ls) = true.
+  Proof.
+    intros H I L. apply lookup_in in L.
+    destruct ls; try discriminate; try reflexivity.
+    - rewrite inh_tuple_unfold in I. rewrite forallb_forall in I. specialize (I (k, v) L). simpl in I.
+      simpl. destruct (st_get k (rev fs0)); [exact I|discriminate].
+    - destruct ts as [|t ts]; [reflexivity|].
+      destruct (inh_narrowed_cons _ _ _ I) as (t0 & It & I0). unfold dot_sym.
+      change (forallb hfb (t :: ts) = true) in H. rewrite forallb_forall in H. specialize (H t0 It).
+      destruct t0; try discriminate.
+      + rewrite inh_tuple_unfold in I0. rewrite forallb_forall in I0. specialize (I0 (k, v) L). simpl in I0.
+        destruct (st_get k (rev fs0)) as [tk|] eqn:E; [|discriminate].
+        apply st_get_in in E. apply in_rev in E.
+        apply (one_or_narrowed_inh v _ tk); auto.
+        apply in_flat_map. exists (STuple fs0). split; auto.
+        apply in_flat_map. exists (k, tk). split; auto. rewrite bytes_eqb_refl. now left.
+      + apply (one_or_narrowed_inh v _ SAny); auto. apply in_flat_map. exists SAny. split; auto. now left.
+      + apply (one_or_narrowed_inh v _ SAny); auto. apply in_flat_map. exists (SNarrowed ts0). split; auto. now left.
+  Qed.
+
+  Lemma inh_list_elem (items : list value) ts v :
+    inh (VList items) (SList ts) = true -> In v items -> inh v (SNarrowed ts) = true.
+  Proof.
+    simpl. intros H I. rewrite forallb_forall in H. specialize (H v I).
+    apply existsb_exists in H. destruct H as (t & It & Ht). eapply inh_narrowed_in; eauto.
+  Qed.
+
+  Lemma dot_int_sound ls (items : list value) v :
+    hfb ls = true -> inh (VList items) ls = true -> In v items -> inh v (dot_int ls) = true.
+  Proof.
+    intros H I L.
+    destruct ls; try discriminate; try reflexivity.
+    - simpl. eapply inh_list_elem; eauto.
+    - destruct ts as [|t ts]; [reflexivity|].
+      destruct (inh_narrowed_cons _ _ _ I) as (t0 & It & I0). unfold dot_int.
+      change (forallb hfb (t :: ts) = true) in H. rewrite forallb_forall in H. specialize (H t0 It).
+      destruct t0; try discriminate.
+      + apply (one_or_narrowed_inh v _ SAny); auto. apply in_flat_map. exists SListAny. split; auto. now left.
+      + apply (one_or_narrowed_inh v _ (SNarrowed ts0)); [|eapply inh_list_elem; eauto].
+        apply in_flat_map. exists (SList ts0). split; auto. now left.
+      + apply (one_or_narrowed_inh v _ SAny); auto. apply in_flat_map. exists SAny. split; auto. now left.
+      + apply (one_or_narrowed_inh v _ SAny); auto. apply in_flat_map. exists (SNarrowed ts0). split; auto. now left.
+  Qed.
+
+  Lemma dot_call_sound ls (fs : list (bytes * value)) (v : value) :
+    hfb ls = true -> inh (VTuple fs) ls = true -> inh v (dot_call ls) = true.
+  Proof. intros H I. destruct ls; try discriminate; reflexivity. Qed.
 
   Lemma derive_f_dot df l r st :
     derive_f (S df) (EBin DOT l r) st
@@ -1396,16 +1592,317 @@ Section C07.
            | _ => st2
            end).
   Proof. reflexivity. Qed.
-  Lemma dot_f_tuple_sym n ss k st :
-    dot_f (S n) (STuple ss) (ESym k) st = (match st_get k ss with Some s => s | None => SErr EType end, st).
-  Proof. reflexivity. Qed.
-  Lemma dot_f_tuple_str n ss k st :
-    dot_f (S n) (STuple ss) (EStr k) st = (match st_get k ss with Some s => s | None => SErr EType end, st).
-  Proof. reflexivity. Qed.
-  Lemma dot_f_any_sym n k st : dot_f (S n) SAny (ESym k) st = (SAny, st).
-  Proof. reflexivity. Qed.
-  Lemma dot_f_any_str n k st : dot_f (S n) SAny (EStr k) st = (SAny, st).
-  Proof. reflexivity. Qed.
+
+  Lemma dot_no_update (l : expr) (ls sh : shape) (r : expr) (st2 : symtab) :
+    hfb ls = true ->
+    match l with
+    | ESym x =>
+      if is_err sh then st2
+      else match ls with
+           | SHole _ =>
+             st_set x (match r with
+                       | ESym k | EStr k => STuple [(k, SAny)]
+                       | EInt _ => SListAny
+                       | _ => ls
+                       end) st2
+           | _ => st2
+           end
+    | _ => st2
+    end = st2.
+  Proof. intros H. destruct l; auto. destruct (is_err sh); auto. destruct ls; try discriminate; reflexivity. Qed.
+
+  (* ---- select: merging ---- *)
+  Lemma merge_keeps types s t : In t types -> In t (merge_in_shape types s).
+  Proof. unfold merge_in_shape. destruct (existsb _ types); auto. intros; apply in_or_app; now left. Qed.
+  Lemma merge_subset types s x : In x (merge_in_shape types s) -> In x types \/ x = s.
+  Proof.
+    unfold merge_in_shape. destruct (existsb _ types); auto. intros I. apply in_app_or in I.
+    destruct I as [I|[<-|[]]]; auto.
+  Qed.
+  Lemma prim_same_eq t s : prim_same t s = true -> t = s.
+  Proof. destruct t; try discriminate; destruct s; try discriminate; reflexivity. Qed.
+  Lemma sel_ok_in types s : sel_ok types s = true -> In s (merge_in_shape types s).
+  Proof.
+    unfold sel_ok, merge_in_shape. intros H. apply orb_true_iff in H. destruct H as [H|H].
+    - apply negb_true_iff in H. rewrite H. apply in_or_app. right. now left.
+    - apply existsb_exists in H. destruct H as (t & It & Ht). apply prim_same_eq in Ht. subst t.
+      destruct (existsb _ types); auto. apply in_or_app. now left.
+  Qed.
+  Lemma fold_merge_keeps l : forall types t, In t types -> In t (fold_left merge_in_shape l types).
+  Proof. induction l as [|s l IH]; simpl; auto. intros types t I. apply IH. now apply merge_keeps. Qed.
+  Lemma sel_ok_all_in l : forall types s, sel_ok_all types l = true -> In s l -> In s (fold_left merge_in_shape l types).
+  Proof.
+    induction l as [|s0 l IH]; simpl; intros types s H I; [contradiction|].
+    apply andb_true_iff in H. destruct H as [H1 H2]. destruct I as [<-|I].
+    - apply fold_merge_keeps. now apply sel_ok_in.
+    - apply IH; auto.
+  Qed.
+  Lemma fold_merge_subset l : forall types x, In x (fold_left merge_in_shape l types) -> In x types \/ In x l.
+  Proof.
+    induction l as [|s l IH]; simpl; auto. intros types x I.
+    destruct (IH _ _ I) as [J|J]; auto. destruct (merge_subset _ _ _ J) as [K | ->]; auto.
+  Qed.
+
+  Lemma find_arm_in k (arms : list (bytes * expr)) ae :
+    (fix find (arms : list (bytes * expr)) : option expr :=
+       match arms with
+       | [] => None
+       | (k', ae) :: arms' => if bytes_eqb k k' then Some ae else find arms'
+       end) arms = Some ae -> exists k', In (k', ae) arms.
+  Proof.
+    induction arms as [|[k' a] arms IH]; intros H; [discriminate|].
+    destruct (bytes_eqb k k'); [inversion H; subst; exists k'; now left|].
+    destruct (IH H) as (k2 & I). exists k2. now right.
+  Qed.
+
+  Lemma sublist_inh (l sub : list value) ts :
+    inh (VList l) (SList ts) = true -> (forall x, In x sub -> In x l) -> inh (VList sub) (SList ts) = true.
+  Proof. simpl. rewrite !forallb_forall. intros H S x I. apply H, S, I. Qed.
+
+  Lemma derive_f_func_lit df ps body st : exists s', derive_f (S df) (EFunc ps body) st = (s', st) /\ hfb s' = true.
+  Proof. simpl. destruct (derive_f df body _). eexists. split; reflexivity. Qed.
+
+  (* ---- arithmetic: a primitive shape against a data shape (candidate sets included) ---- *)
+  Lemma in_shapes_size (l : list shape) x :
+    In x l -> shape_size x <= fold_right (fun s n => shape_size s + n) 0 l.
+  Proof.
+    induction l as [|y l IH]; simpl; intros H; [contradiction|].
+    destruct H as [H|H]; [subst; lia|]. specialize (IH H). lia.
+  Qed.
+
+  Lemma any_compat_l_pure (nf : NF) other ts (c : shape -> bool) :
+    (forall t, In t ts -> pure_at nf t other (c t)) ->
+    forall s acc, any_compat_l nf ts other s acc = (acc || existsb c ts, s).
+  Proof.
+    induction ts as [|t ts IH]; simpl; intros H s acc.
+    - now rewrite orb_false_r.
+    - destruct (H t (or_introl eq_refl) s) as (r & E & Hc). rewrite E.
+      rewrite IH by (intros; apply H; now right). rewrite Hc. now rewrite orb_assoc.
+  Qed.
+
+  Lemma any_compat_r_pure' (nf : NF) other ts (c : shape -> bool) :
+    (forall t, In t ts -> pure_at nf other t (c t)) ->
+    forall s acc, any_compat_r nf ts other s acc = (acc || existsb c ts, s).
+  Proof.
+    induction ts as [|t ts IH]; simpl; intros H s acc.
+    - now rewrite orb_false_r.
+    - destruct (H t (or_introl eq_refl) s) as (r & E & Hc). rewrite E.
+      rewrite IH by (intros; apply H; now right). rewrite Hc. now rewrite orb_assoc.
+  Qed.
+
+  Lemma narrow_f_cands_l f t ts r s :
+    is_err r = false -> ref_name r = None -> hole_name r = None -> is_any r = false ->
+    is_empty_narrowed r = false ->
+    narrow_f (S f) (SNarrowed (t :: ts)) r s
+    = let '(ok, s1) := any_compat_l (narrow_f f) (t :: ts) r s false in ((if ok then r else SErr EType), s1).
+  Proof. intros. destruct r; try discriminate; try reflexivity. destruct ts0; try discriminate; reflexivity. Qed.
+
+  (* a data shape against a primitive one: no state change; the result is the primitive shape when the
+     data shape admits it, a TypeErr otherwise *)
+  Definition pres (nf : NF) (x y : shape) (c : bool) (p : shape) : Prop :=
+    forall s, exists r, nf x y s = (r, s) /\ (if c then r = p else is_err r = true).
+
+  Lemma pres_pure_at nf x y c p : is_prim p = true -> pres nf x y c p -> pure_at nf x y c.
+  Proof.
+    intros Pp H s. destruct (H s) as (r & E & C). exists r. split; auto.
+    destruct c; [subst r; destruct p; try discriminate Pp; reflexivity|now rewrite C].
+  Qed.
+
+  Ltac pres_leaf := let s := fresh "s" in intro s; eexists; (split; [reflexivity|reflexivity]).
+
+  Lemma narrow_ds_prim : forall f l p,
+    is_prim p = true -> dsb l = true -> shape_size l < f ->
+    pres (narrow_f f) l p (admits p l) p /\ pres (narrow_f f) p l (admits p l) p.
+  Proof.
+    induction f as [|f IH]; intros l p Pp Dl Hsz; [lia|].
+    destruct l; try discriminate Dl;
+      try (destruct p; try discriminate Pp; split; pres_leaf).
+    (* SNarrowed *)
+    destruct ts as [|t ts].
+    { destruct p; try discriminate Pp; split; pres_leaf. }
+    assert (IHt : forall t0, In t0 (t :: ts) ->
+                             pure_at (narrow_f f) t0 p (admits p t0) /\ pure_at (narrow_f f) p t0 (admits p t0)).
+    { intros t0 I. destruct (IH t0 p Pp) as [H1 H2].
+      - change (forallb dsb (t :: ts) = true) in Dl. rewrite forallb_forall in Dl. auto.
+      - pose proof (in_shapes_size (t :: ts) t0 I). simpl in Hsz. simpl in H. lia.
+      - split; eapply pres_pure_at; eauto. }
+    change (admits p (SNarrowed (t :: ts))) with (existsb (admits p) (t :: ts)).
+    split; intro s.
+    + rewrite narrow_f_cands_l by (destruct p; try discriminate Pp; reflexivity).
+      rewrite (any_compat_l_pure (narrow_f f) p (t :: ts) (admits p)) by (intros; apply IHt; auto).
+      rewrite orb_false_l. destruct (existsb (admits p) (t :: ts)); eexists; split; reflexivity.
+    + rewrite narrow_f_cands_r by (destruct p; try discriminate Pp; reflexivity).
+      rewrite (any_compat_r_pure' (narrow_f f) p (t :: ts) (admits p)) by (intros; apply IHt; auto).
+      rewrite orb_false_l. destruct (existsb (admits p) (t :: ts)); eexists; split; reflexivity.
+  Qed.
+
+  Definition prim_shape_of (v : value) : option shape :=
+    match v with
+    | VBool _ => Some SBool | VInt _ => Some SInt | VFloat _ => Some SFloat | VStr _ => Some SStr
+    | _ => None
+    end.
+
+  Lemma inh_admits : forall n s (v : value) p,
+    shape_size s <= n -> prim_shape_of v = Some p -> inh v s = admits p s.
+  Proof.
+    induction n as [|n IH]; intros s v p Hsz Hp.
+    { pose proof (shape_size_pos s). lia. }
+    destruct s; try (destruct v; inversion Hp; subst; reflexivity).
+    destruct ts as [|t ts]; [reflexivity|].
+    change (inh v (SNarrowed (t :: ts))) with (existsb (inh v) (t :: ts)).
+    change (admits p (SNarrowed (t :: ts))) with (existsb (admits p) (t :: ts)).
+    apply existsb_ext_in. intros t0 I. apply IH; auto.
+    pose proof (in_shapes_size (t :: ts) t0 I). simpl in Hsz. simpl in H. lia.
+  Qed.
+
+  Lemma prim_shape_inh (v : value) p : prim_shape_of v = Some p -> is_prim p = true /\ inh v p = true.
+  Proof. destruct v; simpl; intros H; inversion H; subst; split; reflexivity. Qed.
+  Lemma inh_prim_shape (v : value) p : is_prim p = true -> inh v p = true -> prim_shape_of v = Some p.
+  Proof. destruct p; try discriminate; destruct v; try discriminate; reflexivity. Qed.
+
+  (* the operands of a successful arithmetic operation have one primitive kind, and so has the result *)
+  Lemma arith_kind o lv rv v p :
+    arith' fo o lv rv = Ok v -> (prim_shape_of lv = Some p \/ prim_shape_of rv = Some p) ->
+    prim_shape_of lv = Some p /\ prim_shape_of rv = Some p /\ prim_shape_of v = Some p.
+  Proof.
+    intros H K.
+    destruct lv; destruct rv; destruct o; simpl in H; try discriminate; unfold chk in H;
+      repeat match type of H with
+             | (if ?c then _ else _) = Ok _ => destruct c; try discriminate
+             end;
+      inversion H; subst; simpl in *; destruct K as [K|K]; inversion K; subst; auto.
+  Qed.
+
+  (* narrowing for arithmetic (arith_ok): the table is untouched; when both operand values have the
+     primitive kind p and inhabit the operand shapes, the result is the shape p *)
+  Lemma narrow_st_arith st sl sr :
+    arith_ok sl sr = true ->
+    exists res, narrow_st st sl sr = (res, st) /\ hfb res = true
+                /\ forall (lv rv : value) p,
+                     prim_shape_of lv = Some p -> prim_shape_of rv = Some p ->
+                     inh lv sl = true -> inh rv sr = true -> res = p.
+  Proof.
+    intros A. unfold arith_ok in A. apply orb_true_iff in A.
+    pose proof (narrow_fuel_ge st sl sr) as Hf. unfold narrow_st.
+    destruct A as [A|A]; apply andb_true_iff in A; destruct A as [A1 A2].
+    - destruct (narrow_ds_prim (narrow_fuel st sl sr) sr sl A1 A2) as [_ P].
+      { pose proof (shape_size_pos sl). lia. }
+      destruct (P (mk_nst st [])) as (res & E & C). rewrite E. exists res. split; [reflexivity|]. split.
+      { destruct (admits sl sr); [subst res; destruct sl; try discriminate A1; reflexivity|].
+        destruct res; try discriminate C; reflexivity. }
+      intros lv rv p Hl Hr Il Ir.
+      assert (sl = p).
+      { destruct (prim_shape_inh lv p Hl) as [Pp Ip]. rewrite (inh_admits _ sl lv p (le_n _) Hl) in Il.
+        destruct sl; try discriminate A1; destruct p; try discriminate Pp; try discriminate Il; reflexivity. }
+      subst sl. rewrite (inh_admits _ sr rv p (le_n _) Hr) in Ir. now rewrite Ir in C.
+    - destruct (narrow_ds_prim (narrow_fuel st sl sr) sl sr A2 A1) as [P _].
+      { pose proof (shape_size_pos sr). lia. }
+      destruct (P (mk_nst st [])) as (res & E & C). rewrite E. exists res. split; [reflexivity|]. split.
+      { destruct (admits sr sl); [subst res; destruct sr; try discriminate A2; reflexivity|].
+        destruct res; try discriminate C; reflexivity. }
+      intros lv rv p Hl Hr Il Ir.
+      assert (sr = p).
+      { destruct (prim_shape_inh rv p Hr) as [Pp Ip]. rewrite (inh_admits _ sr rv p (le_n _) Hr) in Ir.
+        destruct sr; try discriminate A2; destruct p; try discriminate Pp; try discriminate Ir; reflexivity. }
+      subst sr. rewrite (inh_admits _ sl lv p (le_n _) Hl) in Il. now rewrite Il in C.
+  Qed.
+
+  Lemma arith_ok_kind sl sr (lv rv : value) :
+    arith_ok sl sr = true -> inh lv sl = true -> inh rv sr = true ->
+    exists p, prim_shape_of lv = Some p \/ prim_shape_of rv = Some p.
+  Proof.
+    intros A Il Ir. unfold arith_ok in A. apply orb_true_iff in A.
+    destruct A as [A|A]; apply andb_true_iff in A; destruct A as [A1 A2].
+    - exists sl. left. now apply inh_prim_shape.
+    - exists sr. right. now apply inh_prim_shape.
+  Qed.
+
+  (* ---- lists of sound sub-derivations ---- *)
+  Definition fsound (st : symtab) (ke : bytes * expr) (ks : bytes * shape) : Prop :=
+    fst ke = fst ks /\ sound_at st (snd ke) (snd ks).
+
+  Lemma derive_list_P st es ss :
+    Forall2 (sound_at st) es ss ->
+    forall df, depth_list (fun e1 => expr_depth e1) es <= df -> derive_list (derive_f df) es st = (ss, st).
+  Proof.
+    induction 1 as [|e s es ss [D _] F IH]; simpl; intros df H; auto.
+    rewrite D by lia. rewrite IH by lia. reflexivity.
+  Qed.
+  Lemma derive_fields_P st fs ss :
+    Forall2 (fsound st) fs ss ->
+    forall df, depth_fields (fun e1 => expr_depth e1) fs <= df -> derive_fields (derive_f df) fs st = (ss, st).
+  Proof.
+    induction 1 as [|[k e] [k' s] fs ss [E [D _]] F IH]; simpl in *; intros df H; auto.
+    subst. rewrite D by lia. rewrite IH by lia. reflexivity.
+  Qed.
+  Lemma list_hf st es ss : Forall2 (sound_at st) es ss -> forallb hfb ss = true.
+  Proof. induction 1 as [|e s es ss [_ [H _]] F IH]; simpl; auto. now rewrite H, IH. Qed.
+  Lemma fields_hf st fs ss : Forall2 (fsound st) fs ss -> forallb (fun '(_, t) => hfb t) ss = true.
+  Proof. induction 1 as [|[k e] [k' s] fs ss [_ [_ [H _]]] F IH]; simpl in *; auto. now rewrite H, IH. Qed.
+  Lemma fields_names st fs ss : Forall2 (fsound st) fs ss -> map fst ss = map fst fs.
+  Proof. induction 1 as [|[k e] [k' s] fs ss [E _] F IH]; simpl in *; auto. now rewrite IH, E. Qed.
+  Lemma fields_shapes st fs ss : Forall2 (fsound st) fs ss -> map (fun '(_, e1) => derive st e1) fs = map snd ss.
+  Proof.
+    induction 1 as [|[k e] [k' s] fs ss [_ [D _]] F IH]; simpl in *; auto.
+    rewrite IH. f_equal. now apply derive_st_of_f.
+  Qed.
+  Lemma list_inh st es ss fuel c vs :
+    strict fo c = true -> env_ok (sc fo c) st ->
+    Forall2 (sound_at st) es ss -> Forall2 (fun e v => eval fo fuel c e = Ok v) es vs ->
+    Forall2 (fun v s => inh v s = true) vs ss.
+  Proof.
+    intros Hs He F. revert vs. induction F as [|e s es ss [_ [_ E]] F IH]; intros vs G; inversion G; subst; constructor.
+    - eapply E; eauto.
+    - auto.
+  Qed.
+  Lemma fields_inh st fs ss fuel c vs :
+    strict fo c = true -> env_ok (sc fo c) st ->
+    Forall2 (fsound st) fs ss ->
+    Forall2 (fun ke kv => fst ke = fst kv /\ eval fo fuel c (snd ke) = Ok (snd kv)) fs vs ->
+    Forall2 (fun kv ks => fst kv = fst ks /\ inh (snd kv) (snd ks) = true) vs ss.
+  Proof.
+    intros Hs He F. revert vs.
+    induction F as [|[k e] [k' s] fs ss [K [_ [_ E]]] F IH]; intros vs G; inversion G as [|? [k2 v] ? ? [K2 E2]]; subst;
+      constructor; auto.
+    simpl in *. split; [congruence|]. eapply E; eauto.
+  Qed.
+
+  Lemma derive_select_P st arms ss dflt (ds : option shape) :
+    Forall2 (fsound st) arms ss ->
+    match dflt, ds with
+    | Some d, Some sd => sound_at st d sd
+    | None, None => True
+    | _, _ => False
+    end ->
+    forall df types,
+      depth_fields (fun e1 => expr_depth e1) arms <= df ->
+      match dflt with Some d => expr_depth d | None => 0 end <= df ->
+      derive_select (derive_f df) merge_in_shape dflt arms types st
+      = (SNarrowed (fold_left merge_in_shape (map snd ss ++ match ds with Some sd => [sd] | None => [] end) types), st).
+  Proof.
+    intros F Hd. induction F as [|[k e] [k' s] arms ss [E [D _]] F IH]; simpl in *; intros df types H1 H2.
+    - destruct dflt as [d|], ds as [sd|]; try contradiction; auto.
+      destruct Hd as [Dd _]. rewrite Dd by lia. reflexivity.
+    - rewrite D by lia. apply IH; lia.
+  Qed.
+
+  Definition not_shape (s1 : shape) : shape :=
+    match s1 with
+    | SBool | SHole _ | SAny => SBool
+    | SNarrowed ts => if existsb may_be_boolean ts then SBool else SErr EType
+    | _ => SErr EType
+    end.
+  Definition filter_shape (ts : shape) : shape :=
+    match ts with
+    | SList _ | SListAny => ts
+    | SHole _ | SAny => SAny
+    | SStr => ts
+    | STuple _ | SNarrowed _ => SAny
+    | _ => SErr EType
+    end.
+
+  Lemma prim_same_refl s : is_prim s = true -> prim_same s s = true.
+  Proof. destruct s; simpl; auto; discriminate. Qed.
 
   Local Opaque bytes_eqb arith'.
 
@@ -1414,254 +1911,436 @@ Section C07.
     repeat match type of H with
            | context [match ?x with _ => _ end] => destruct x eqn:?; simpl in H; try discriminate H
            end.
+  Ltac noupd :=
+    match goal with
+    | Hl : hfb ?sl = true |- match ?e1 with _ => _ end = _ =>
+      clear - Hl; destruct e1; try reflexivity;
+      match goal with |- (if ?c then _ else _) = _ => destruct c; try reflexivity end;
+      destruct sl; try discriminate Hl; reflexivity
+    end.
+  Ltac fuel_case df D := destruct df; [simpl in D; lia|]; simpl in D; apply le_S_n in D.
 
-  (* soundness of derive on the fragment: if the expression evaluates, its derived shape is not a type
-     error, the value inhabits it, and the symbol table is left as it was *)
-  Lemma derive_sound_aux : forall fuel c e v st,
-    strict fo c = true -> env_ok (sc fo c) st -> fragment_fo st e = true -> eval fo fuel c e = Ok v ->
-    exists s, (forall df, expr_depth e <= df -> derive_f df e st = (s, st))
-              /\ groundb s = true /\ inh v s = true.
+  (* soundness of derive on the fragment *)
+  Lemma derive_sound_aux : forall n e st,
+    expr_depth e <= n -> st_ok st -> fragment_fo st e = true -> exists s, sound_at st e s.
   Proof.
-    induction fuel as [|f IH]; intros c e v st Hs Henv F H; [discriminate|].
+    induction n as [|n IH]; intros e st Hd Hst F.
+    { destruct e; simpl in Hd; lia. }
     destruct e; simpl in F; try discriminate.
-    - (* ENull *) simpl in H. inversion H; subst. exists SAny. repeat split; auto.
-      intros df D. destruct df; [simpl in D; lia|reflexivity].
-    - simpl in H. inversion H; subst. exists SBool. repeat split; auto.
-      intros df D. destruct df; [simpl in D; lia|reflexivity].
-    - simpl in H. inversion H; subst. exists SInt. repeat split; auto.
-      intros df D. destruct df; [simpl in D; lia|reflexivity].
-    - simpl in H. inversion H; subst. exists SFloat. repeat split; auto.
-      intros df D. destruct df; [simpl in D; lia|reflexivity].
-    - simpl in H. inversion H; subst. exists SStr. repeat split; auto.
-      intros df D. destruct df; [simpl in D; lia|reflexivity].
+    - (* ENull *) exists SAny. split; [|split]; auto.
+      + intros df D. destruct df; [simpl in D; lia|reflexivity].
+    - exists SBool. split; [|split]; auto.
+      + intros df D. destruct df; [simpl in D; lia|reflexivity].
+      + intros fuel c v0 Hs He H. destruct fuel; [discriminate|]. simpl in H. now inversion H.
+    - exists SInt. split; [|split]; auto.
+      + intros df D. destruct df; [simpl in D; lia|reflexivity].
+      + intros fuel c v0 Hs He H. destruct fuel; [discriminate|]. simpl in H. now inversion H.
+    - exists SFloat. split; [|split]; auto.
+      + intros df D. destruct df; [simpl in D; lia|reflexivity].
+      + intros fuel c v0 Hs He H. destruct fuel; [discriminate|]. simpl in H. now inversion H.
+    - exists SStr. split; [|split]; auto.
+      + intros df D. destruct df; [simpl in D; lia|reflexivity].
+      + intros fuel c v0 Hs He H. destruct fuel; [discriminate|]. simpl in H. now inversion H.
     - (* ESym *)
-      apply andb_true_iff in F. destruct F as [F1 F2]. apply negb_true_iff in F1, F2.
-      simpl in H. rewrite F1 in H.
-      destruct (lookup fo x (sc fo c)) as [w|] eqn:L.
-      + inversion H; subst. destruct (Henv x v L) as (s & G1 & G2 & G3). exists s. repeat split; auto.
-        intros df D. destruct df; [simpl in D; lia|]. simpl. now rewrite G1.
-      + rewrite F2 in H. discriminate.
+      unfold sym_ok, st_has in F.
+      apply andb_true_iff in F. destruct F as [F F3]. apply andb_true_iff in F. destruct F as [F1 F2].
+      apply negb_true_iff in F2, F3. simpl in F2, F3.
+      destruct (st_get x st) as [s0|] eqn:G; [|discriminate].
+      exists s0. split; [|split].
+      + intros df D. destruct df; [simpl in D; lia|]. simpl. now rewrite G.
+      + eapply Hst; eauto.
+      + intros fuel c v0 Hs He H. destruct fuel; [discriminate|]. simpl in H. rewrite F2 in H.
+        destruct (lookup fo x (sc fo c)) as [w|] eqn:L.
+        * inversion H; subst. destruct (He x v0 L) as (s' & G' & I'). rewrite G in G'. inversion G'; subst. exact I'.
+        * rewrite F3 in H. discriminate.
     - (* ETuple *)
       apply andb_true_iff in F. destruct F as [F1 F2].
-      simpl in H.
-      destruct (fold_left _ fs (Ok [])) as [r| | |] eqn:T; simpl in H; try discriminate. inversion H; subst. clear H.
-      destruct (tuple_lit_spec (eval fo f c) fs [] r T F1) as (vs & FA & R); [reflexivity|]. simpl in R. subst r.
-      assert (K : exists ss,
-                 (forall df, depth_fields (fun e1 => expr_depth e1) fs <= df ->
-                             derive_fields (derive_f df) fs st = (ss, st))
-                 /\ Forall2 (fun kv ks => fst kv = fst ks /\ inh (snd kv) (snd ks) = true) vs ss
-                 /\ forallb (fun '(_, t) => groundb t) ss = true
-                 /\ map fst vs = map fst fs).
-      { clear T F1. induction FA as [|[k e1] [k' w] fs vs [H1 H2] FA IHf].
-        - exists []. repeat split; auto; try constructor.
-        - simpl in *. subst k'. apply andb_true_iff in F2. destruct F2 as [Fe F2].
-          destruct (IH c e1 w st Hs Henv Fe H2) as (s1 & D1 & G1 & I1).
-          destruct (IHf F2) as (ss & Ds & FS & GS & NS).
-          exists ((k, s1) :: ss). repeat split.
-          + intros df D. rewrite D1 by lia. rewrite Ds by lia. reflexivity.
-          + constructor; auto.
-          + simpl. now rewrite G1, GS.
-          + now rewrite NS. }
-      destruct K as (ss & Ds & FS & GS & NS).
-      exists (STuple ss). repeat split; auto.
-      + intros df D. destruct df; [simpl in D; lia|]. simpl in D. apply le_S_n in D.
-        simpl. rewrite Ds by lia. reflexivity.
-      + apply inh_tuple_forall2; auto. unfold names. rewrite NS. now rewrite <- nodupE_names.
+      simpl in Hd. apply le_S_n in Hd.
+      destruct (forall2_exists (fsound st) fs) as [ss FS].
+      { intros [k e1] I. rewrite forallb_forall in F2. specialize (F2 (k, e1) I). simpl in F2.
+        destruct (IH e1 st) as [s1 S1]; auto.
+        { pose proof (depth_fields_in (fun e1 => expr_depth e1) fs k e1 I). lia. }
+        exists (k, s1). split; auto. }
+      exists (STuple ss). split; [|split].
+      + intros df D. fuel_case df D. simpl. rewrite (derive_fields_P st fs ss FS) by lia. reflexivity.
+      + simpl. eapply fields_hf; eauto.
+      + intros fuel c v0 Hs He H. destruct fuel; [discriminate|]. simpl in H.
+        destruct (fold_left _ fs (Ok [])) as [r| | |] eqn:T; simpl in H; try discriminate. inversion H; subst. clear H.
+        destruct (tuple_lit_spec (eval fo fuel c) fs [] r T F1) as (vs & FA & R); [reflexivity|]. simpl in R. subst r.
+        apply inh_tuple_forall2.
+        * eapply fields_inh; eauto.
+        * rewrite (fields_names st fs ss FS). apply nodup_names_NoDup. now rewrite <- nodup_fields_names.
     - (* EList *)
-      simpl in H. destruct (mapM (eval fo f c) es) as [r| | |] eqn:M; simpl in H; try discriminate.
-      inversion H; subst. clear H. apply mapM_ok in M.
-      assert (K : exists ss,
-                 (forall df, depth_list (fun e1 => expr_depth e1) es <= df ->
-                             derive_list (derive_f df) es st = (ss, st))
-                 /\ Forall2 (fun v s => inh v s = true) r ss /\ forallb groundb ss = true).
-      { induction M as [|e1 w es r H1 M IHm].
-        - exists []. repeat split; auto; try constructor.
-        - simpl in F. apply andb_true_iff in F. destruct F as [Fe F].
-          destruct (IH c e1 w st Hs Henv Fe H1) as (s1 & D1 & G1 & I1).
-          destruct (IHm F) as (ss & Ds & FS & GS).
-          exists (s1 :: ss). repeat split.
-          + intros df D. simpl in D. simpl. rewrite D1 by lia. rewrite Ds by lia. reflexivity.
-          + constructor; auto.
-          + simpl. now rewrite G1, GS. }
-      destruct K as (ss & Ds & FS & GS).
-      exists (SList ss). repeat split; auto.
-      + intros df D. destruct df; [simpl in D; lia|]. simpl in D. apply le_S_n in D.
-        simpl. rewrite Ds by lia. reflexivity.
-      + now apply inh_list_forall2.
+      simpl in Hd. apply le_S_n in Hd.
+      destruct (forall2_exists (sound_at st) es) as [ss FS].
+      { intros e1 I. rewrite forallb_forall in F. apply (IH e1 st); auto.
+        pose proof (depth_list_in (fun e1 => expr_depth e1) es e1 I). lia. }
+      exists (SList ss). split; [|split].
+      + intros df D. fuel_case df D. simpl. rewrite (derive_list_P st es ss FS) by lia. reflexivity.
+      + simpl. eapply list_hf; eauto.
+      + intros fuel c v0 Hs He H. destruct fuel; [discriminate|]. simpl in H.
+        destruct (mapM (eval fo fuel c) es) as [r| | |] eqn:M; simpl in H; try discriminate.
+        inversion H; subst. clear H. apply mapM_ok in M.
+        apply inh_list_forall2. eapply list_inh; eauto.
     - (* EBin *)
+      simpl in Hd. apply le_S_n in Hd.
+      assert (IH1 : fragment_fo st e1 = true -> exists s, sound_at st e1 s) by (intros; apply (IH e1 st); auto; lia).
+      assert (IH2 : fragment_fo st e2 = true -> exists s, sound_at st e2 s) by (intros; apply (IH e2 st); auto; lia).
       destruct o; simpl in F.
       1-5: (* arithmetic *)
         (apply andb_true_iff in F; destruct F as [F F3]; apply andb_true_iff in F; destruct F as [F1 F2];
-         apply andb_true_iff in F3; destruct F3 as [P1 P2];
-         simpl in H;
-         destruct (eval fo f c e2) as [rv| | |] eqn:E2; simpl in H; try discriminate;
-         destruct (eval fo f c e1) as [lv| | |] eqn:E1; simpl in H; try discriminate;
-         destruct (IH c e1 lv st Hs Henv F1 E1) as (sl & Dl & Gl & Il);
-         destruct (IH c e2 rv st Hs Henv F2 E2) as (sr & Dr & Gr & Ir);
-         rewrite (derive_st_of_f e1 st sl Dl) in P1; rewrite (derive_st_of_f e2 st sr Dr) in P2;
-         destruct (arith_prim _ lv rv v sl sr H P1 P2 Il Ir) as [<- Iv];
-         exists sl; repeat split; auto;
-         intros df D; destruct df; [simpl in D; lia|]; simpl in D; apply le_S_n in D;
-         simpl; rewrite Dl by lia; rewrite Dr by lia; simpl; apply narrow_st_prim; exact P1).
-      1-2: (* && || : outside the fragment *)
+         destruct (IH1 F1) as (sl & Dl & Hl & El); destruct (IH2 F2) as (sr & Dr & Hr & Er);
+         rewrite (derive_st_of_f e1 st sl Dl) in F3; rewrite (derive_st_of_f e2 st sr Dr) in F3;
+         simpl in F3;
+         destruct (narrow_st_arith st sl sr F3) as (res & En & Hn & Pn);
+         exists res; split; [|split];
+         [ intros df D; fuel_case df D; simpl; rewrite Dl by lia; rewrite Dr by lia; simpl; exact En
+         | exact Hn
+         | intros fuel c v0 Hs He H; destruct fuel; [discriminate|]; simpl in H;
+           destruct (eval fo fuel c e2) as [rv| | |] eqn:E2; simpl in H; try discriminate;
+           destruct (eval fo fuel c e1) as [lv| | |] eqn:E1; simpl in H; try discriminate;
+           pose proof (El _ _ _ Hs He E1) as Il; pose proof (Er _ _ _ Hs He E2) as Ir;
+           destruct (arith_ok_kind sl sr lv rv F3 Il Ir) as [p Kp];
+           destruct (arith_kind _ lv rv v0 p H Kp) as (K1 & K2 & K3);
+           rewrite (Pn lv rv p K1 K2 Il Ir); apply (prim_shape_inh v0 p K3) ]).
+      1-2: (* && || : outside the fragment (Known class K10) *)
         (rewrite andb_false_r in F; discriminate).
       1-6: (* == > < != >= <= *)
         (rewrite andb_true_r in F; apply andb_true_iff in F; destruct F as [F1 F2];
-         simpl in H;
-         destruct (eval fo f c e2) as [rv| | |] eqn:E2; simpl in H; try discriminate;
-         destruct (eval fo f c e1) as [lv| | |] eqn:E1; simpl in H; try discriminate;
-         destruct (IH c e1 lv st Hs Henv F1 E1) as (sl & Dl & Gl & Il);
-         destruct (IH c e2 rv st Hs Henv F2 E2) as (sr & Dr & Gr & Ir);
-         assert (Bv : exists x, v = VBool x)
-           by (unfold compare_num in H; break_H H; inversion H; eauto);
-         destruct Bv as [x ->];
-         exists SBool; repeat split; auto;
-         intros df D; destruct df; [simpl in D; lia|]; simpl in D; apply le_S_n in D;
-         simpl; rewrite Dl by lia; rewrite Dr by lia; reflexivity).
+         destruct (IH1 F1) as (sl & Dl & Hl & El); destruct (IH2 F2) as (sr & Dr & Hr & Er);
+         exists SBool; split; [|split]; auto;
+         [ intros df D; fuel_case df D; simpl; rewrite Dl by lia; rewrite Dr by lia; reflexivity
+         | intros fuel c v0 Hs He H; destruct fuel; [discriminate|]; simpl in H;
+           destruct (eval fo fuel c e2) as [rv| | |] eqn:E2; simpl in H; try discriminate;
+           destruct (eval fo fuel c e1) as [lv| | |] eqn:E1; simpl in H; try discriminate;
+           assert (Bv : exists x, v0 = VBool x)
+             by (unfold compare_num in H; break_H H; inversion H; eauto);
+           destruct Bv as [x ->]; reflexivity ]).
       1-3: (* =~ !~ in : outside the fragment *)
         (rewrite andb_false_r in F; discriminate).
       + (* is *)
         rewrite andb_true_r in F. apply andb_true_iff in F. destruct F as [F1 F2].
-        simpl in H.
-        destruct (eval fo f c e2) as [rv| | |] eqn:E2; simpl in H; try discriminate.
-        destruct (eval fo f c e1) as [lv| | |] eqn:E1; simpl in H; try discriminate.
-        destruct (IH c e1 lv st Hs Henv F1 E1) as (sl & Dl & Gl & Il).
-        destruct (IH c e2 rv st Hs Henv F2 E2) as (sr & Dr & Gr & Ir).
-        assert (Bv : exists x, v = VBool x) by (break_H H; inversion H; eauto).
-        destruct Bv as [x ->].
-        exists SBool. repeat split; auto.
-        intros df D. destruct df; [simpl in D; lia|]. simpl in D. apply le_S_n in D.
-        simpl. rewrite Dl by lia. rewrite Dr by lia. reflexivity.
+        destruct (IH1 F1) as (sl & Dl & Hl & El). destruct (IH2 F2) as (sr & Dr & Hr & Er).
+        exists SBool. split; [|split]; auto.
+        * intros df D. fuel_case df D. simpl. rewrite Dl by lia. rewrite Dr by lia. reflexivity.
+        * intros fuel c v0 Hs He H. destruct fuel; [discriminate|]. simpl in H.
+          destruct (eval fo fuel c e2) as [rv| | |] eqn:E2; simpl in H; try discriminate.
+          destruct (eval fo fuel c e1) as [lv| | |] eqn:E1; simpl in H; try discriminate.
+          assert (Bv : exists x, v0 = VBool x) by (break_H H; inversion H; eauto).
+          destruct Bv as [x ->]. reflexivity.
       + (* . *)
-        assert (K : exists k, (e2 = ESym k \/ e2 = EStr k) /\ fragment_fo st e1 = true).
-        { destruct e2; try (rewrite andb_false_r in F; discriminate); eauto. }
-        destruct K as (k & Ek & F1). clear F.
-        assert (Hi : exists lv, eval fo f c e1 = Ok lv /\ index fo c lv (VStr k) = Ok v).
-        { destruct Ek as [-> | ->]; simpl in H.
-          - destruct (eval fo f c e1) as [lv| | |] eqn:E1; simpl in H; try discriminate. eauto.
-          - destruct (eval fo f c e1) as [lv| | |] eqn:E1; simpl in H; try discriminate.
-            destruct f; simpl in H; try discriminate. eauto. }
-        destruct Hi as (lv & E1 & Hi).
-        destruct (IH c e1 lv st Hs Henv F1 E1) as (sl & Dl & Gl & Il).
-        unfold index in Hi. rewrite Hs in Hi.
-        destruct lv; try discriminate Hi.
-        destruct (lookup fo k fs) as [w|] eqn:L; try discriminate Hi. inversion Hi; subst w. clear Hi.
-        destruct (ground_inh_tuple sl fs Gl Il) as [[ss ->] | ->].
-        * simpl in Il. rewrite forallb_forall in Il. specialize (Il (k, v) (lookup_in fo fs k v L)).
-          simpl in Il. rewrite first_st_get in Il.
-          destruct (st_get k ss) as [t|] eqn:G; [|discriminate].
-          exists t. split; [|split; auto].
-          -- intros df D. destruct df; [simpl in D; lia|]. simpl in D. apply le_S_n in D.
-             assert (D1 : expr_depth e1 <= df) by lia.
+        assert (K : fragment_fo st e1 = true
+                    /\ ((exists k, e2 = ESym k \/ e2 = EStr k) \/ (exists i, e2 = EInt i)
+                        \/ (exists k args, e2 = ECall (ESym k) args \/ e2 = ECall (EStr k) args)
+                        \/ (exists k fs, e2 = ECopy (ESym k) fs \/ e2 = ECopy (EStr k) fs))).
+        { destruct e2; try (rewrite andb_false_r in F; discriminate F);
+            try (destruct (fragment_fo st e1); simpl in F; discriminate F); try (split; [exact F|]; eauto 8).
+          - match type of F with context [match ?f with _ => _ end] => destruct f end;
+              try (rewrite andb_false_r in F; discriminate F);
+              try (destruct (fragment_fo st e1); simpl in F; discriminate F); split; try exact F;
+              right; right; right; eauto.
+          - match type of F with context [match ?f with _ => _ end] => destruct f end;
+              try (rewrite andb_false_r in F; discriminate F);
+              try (destruct (fragment_fo st e1); simpl in F; discriminate F); split; try exact F;
+              right; right; left; eauto. }
+        destruct K as [F1 K]. clear F.
+        destruct (IH1 F1) as (sl & Dl & Hl & El).
+        destruct K as [[k Ek] | [[i Ei] | [(k & args & Ek) | (k & fs & Ek)]]].
+        * (* field *)
+          exists (dot_sym k sl). split; [|split].
+          -- intros df D. fuel_case df D. rewrite derive_f_dot.
+             assert (D1 : expr_depth e1 <= df) by lia. rewrite (Dl df D1).
              assert (D2 : exists df', df = S df') by (destruct df; [exfalso; destruct Ek as [-> | ->]; simpl in D; lia | eauto]).
-             rewrite derive_f_dot. rewrite (Dl df D1).
              destruct D2 as [df' ->].
-             destruct Ek as [-> | ->]; [rewrite dot_f_tuple_sym | rewrite dot_f_tuple_str]; rewrite G;
-               destruct e1; try reflexivity; destruct (is_err t); reflexivity.
-          -- simpl in Gl. rewrite forallb_forall in Gl.
-             assert (In (k, t) ss).
-             { clear -G. induction ss as [|[k' t'] ss IHs]; simpl in *; [discriminate|].
-               destruct (bytes_eqb k k') eqn:E; [apply bytes_eqb_spec in E; inversion G; subst; now left|right; auto]. }
-             apply (Gl (k, t) H0).
-        * exists SAny. split; [|split; auto].
-          intros df D. destruct df; [simpl in D; lia|]. simpl in D. apply le_S_n in D.
-          assert (D1 : expr_depth e1 <= df) by lia.
-          assert (D2 : exists df', df = S df') by (destruct df; [exfalso; destruct Ek as [-> | ->]; simpl in D; lia | eauto]).
-          rewrite derive_f_dot. rewrite (Dl df D1).
-          destruct D2 as [df' ->].
-          destruct Ek as [-> | ->]; [rewrite dot_f_any_sym | rewrite dot_f_any_str]; destruct e1; reflexivity.
+             destruct Ek as [-> | ->]; [rewrite dot_f_sym by exact Hl | rewrite dot_f_str by exact Hl];
+               f_equal; noupd.
+          -- now apply hf_dot_sym.
+          -- intros fuel c v0 Hs He H. destruct fuel; [discriminate|].
+             assert (Hi : exists lv, eval fo fuel c e1 = Ok lv /\ index fo c lv (VStr k) = Ok v0).
+             { destruct Ek as [-> | ->]; simpl in H.
+               - destruct (eval fo fuel c e1) as [lv| | |] eqn:E1; simpl in H; try discriminate. eauto.
+               - destruct (eval fo fuel c e1) as [lv| | |] eqn:E1; simpl in H; try discriminate.
+                 destruct fuel; simpl in H; try discriminate. eauto. }
+             destruct Hi as (lv & E1 & Hi). unfold index in Hi. rewrite Hs in Hi.
+             destruct lv; try discriminate Hi.
+             destruct (lookup fo k fs) as [w|] eqn:L; try discriminate Hi. inversion Hi; subst w.
+             apply (dot_sym_sound sl k fs v0 Hl (El _ _ _ Hs He E1) L).
+        * (* index *)
+          subst e2. exists (dot_int sl). split; [|split].
+          -- intros df D. fuel_case df D. rewrite derive_f_dot.
+             assert (D1 : expr_depth e1 <= df) by lia. rewrite (Dl df D1).
+             assert (D2 : exists df', df = S df') by (destruct df; [exfalso; simpl in D; lia | eauto]).
+             destruct D2 as [df' ->]. rewrite dot_f_int by exact Hl.
+             f_equal. noupd.
+          -- now apply hf_dot_int.
+          -- intros fuel c v0 Hs He H. destruct fuel; [discriminate|]. simpl in H.
+             destruct (eval fo fuel c e1) as [lv| | |] eqn:E1; simpl in H; try discriminate.
+             destruct fuel; simpl in H; try discriminate.
+             unfold index in H. rewrite Hs in H.
+             destruct lv; try discriminate H.
+             destruct (Z.leb 0 i); try discriminate H.
+             destruct (nth_error l (Z.to_nat i)) as [w|] eqn:Nth; try discriminate H. inversion H; subst w.
+             apply (dot_int_sound sl l v0 Hl (El _ _ _ Hs He E1)). eapply nth_error_In; eauto.
+        * (* call through a field *)
+          exists (dot_call sl). split; [|split].
+          -- intros df D. fuel_case df D. rewrite derive_f_dot.
+             assert (D1 : expr_depth e1 <= df) by lia. rewrite (Dl df D1).
+             assert (D2 : exists df', df = S df') by (destruct df; [exfalso; destruct Ek as [-> | ->]; simpl in D; lia | eauto]).
+             destruct D2 as [df' ->].
+             destruct Ek as [-> | ->]; rewrite dot_f_call by exact Hl; f_equal; noupd.
+          -- now apply hf_dot_call.
+          -- intros fuel c v0 Hs He H. destruct fuel; [discriminate|].
+             assert (Hi : exists fs0, eval fo fuel c e1 = Ok (VTuple fs0)).
+             { destruct Ek as [-> | ->]; simpl in H;
+                 (destruct (mapM (eval fo fuel c) args) as [avs| | |]; simpl in H; try discriminate;
+                  destruct (eval fo fuel c e1) as [lv| | |] eqn:E1; simpl in H; try discriminate;
+                  rewrite Hs in H; destruct lv; simpl in H; try discriminate H; eauto). }
+             destruct Hi as (fs0 & E1).
+             apply (dot_call_sound sl fs0 v0 Hl (El _ _ _ Hs He E1)).
+        * (* copy through a field *)
+          exists (dot_call sl). split; [|split].
+          -- intros df D. fuel_case df D. rewrite derive_f_dot.
+             assert (D1 : expr_depth e1 <= df) by lia. rewrite (Dl df D1).
+             assert (D2 : exists df', df = S df') by (destruct df; [exfalso; destruct Ek as [-> | ->]; simpl in D; lia | eauto]).
+             destruct D2 as [df' ->].
+             destruct Ek as [-> | ->]; rewrite dot_f_copy by exact Hl; f_equal; noupd.
+          -- now apply hf_dot_call.
+          -- intros fuel c v0 Hs He H. destruct fuel; [discriminate|].
+             assert (Hi : exists fs0, eval fo fuel c e1 = Ok (VTuple fs0)).
+             { destruct Ek as [-> | ->]; simpl in H;
+                 (destruct (eval fo fuel c e1) as [lv| | |] eqn:E1; simpl in H; try discriminate;
+                  rewrite Hs in H; destruct lv; simpl in H; try discriminate H; eauto). }
+             destruct Hi as (fs0 & E1).
+             apply (dot_call_sound sl fs0 v0 Hl (El _ _ _ Hs He E1)).
     - (* ENot *)
-      simpl in H. destruct (eval fo f c e) as [w| | |] eqn:E1; simpl in H; try discriminate.
-      destruct w; try discriminate. inversion H; subst.
-      destruct (IH c e (VBool v0) st Hs Henv F E1) as (s1 & D1 & G1 & I1).
-      exists SBool. repeat split; auto.
-      intros df D. destruct df; [simpl in D; lia|]. simpl in D. apply le_S_n in D.
-      simpl. rewrite D1 by lia. destruct (ground_inh_bool s1 v0 G1 I1) as [-> | ->]; reflexivity.
+      apply andb_true_iff in F. destruct F as [F1 F2].
+      simpl in Hd. apply le_S_n in Hd.
+      destruct (IH e st Hd Hst F1) as (s1 & D1 & H1 & E1).
+      rewrite (derive_st_of_f e st s1 D1) in F2.
+      exists (not_shape s1). split; [|split].
+      + intros df D. fuel_case df D. simpl. rewrite D1 by lia. reflexivity.
+      + destruct s1; simpl; auto. destruct (existsb _ ts); reflexivity.
+      + intros fuel c v0 Hs He H. destruct fuel; [discriminate|]. simpl in H.
+        destruct (eval fo fuel c e) as [w| | |] eqn:Ev; simpl in H; try discriminate.
+        destruct w; try discriminate. inversion H; subst.
+        specialize (E1 _ _ _ Hs He Ev). destruct s1; try discriminate; reflexivity.
     - (* EGroup *)
-      simpl in H. destruct (IH c e v st Hs Henv F H) as (s1 & D1 & G1 & I1).
-      exists s1. repeat split; auto.
-      intros df D. destruct df; [simpl in D; lia|]. simpl in D. apply le_S_n in D. simpl. now apply D1.
+      simpl in Hd. apply le_S_n in Hd.
+      destruct (IH e st Hd Hst F) as (s1 & D1 & H1 & E1).
+      exists s1. split; [|split]; auto.
+      + intros df D. fuel_case df D. simpl. now apply D1.
+      + intros fuel c v0 Hs He H. destruct fuel; [discriminate|]. simpl in H. eapply E1; eauto.
     - (* ERange *)
-      simpl in H.
-      assert (K : exists n a stp z, v = VList (range_from fo n a stp z)).
-      { break_H H; inversion H; eauto. }
-      destruct K as (n & a & stp & z & ->).
-      exists (SList [SInt]). repeat split; auto.
+      exists (SList [SInt]). split; [|split]; auto.
       + intros df D. destruct df; [simpl in D; lia|]. reflexivity.
-      + simpl. apply range_from_ints.
+      + intros fuel c v0 Hs He H. destruct fuel; [discriminate|]. simpl in H.
+        assert (K : exists n a stp z, v0 = VList (range_from fo n a stp z)).
+        { break_H H; inversion H; eauto. }
+        destruct K as (n0 & a & stp & z & ->). simpl. apply range_from_ints.
     - (* EFormatL *)
-      simpl in H.
-      destruct (negb (Nat.eqb (List.length (filter (fun p => match p with PHole => true | _ => false end) parts))
-                              (List.length args))); try discriminate.
-      assert (K : exists t, v = VStr t).
-      { revert v H. generalize args as es. induction parts as [|p ps IHp]; intros es v H; simpl in H.
-        - inversion H; eauto.
-        - destruct p; simpl in H.
-          + break_H H. inversion H; eauto.
-          + destruct es; try discriminate. break_H H. inversion H; eauto.
-          + discriminate. }
-      destruct K as [t ->]. exists SStr. repeat split; auto.
-      intros df D. destruct df; [simpl in D; lia|]. reflexivity.
+      exists SStr. split; [|split]; auto.
+      + intros df D. destruct df; [simpl in D; lia|]. reflexivity.
+      + intros fuel c v0 Hs He H. destruct fuel; [discriminate|]. simpl in H.
+        destruct (negb (Nat.eqb (List.length (filter (fun p => match p with PHole => true | _ => false end) parts))
+                                (List.length args))); try discriminate.
+        assert (K : exists t, v0 = VStr t).
+        { revert v0 H. generalize args as es. induction parts as [|p ps IHp]; intros es v0 H; simpl in H.
+          - inversion H; eauto.
+          - destruct p; simpl in H.
+            + break_H H. inversion H; eauto.
+            + destruct es; try discriminate. break_H H. inversion H; eauto.
+            + discriminate. }
+        destruct K as [t ->]. reflexivity.
     - (* EFormatS *)
-      simpl in H. destruct (eval fo f c e) as [item| | |] eqn:E1; simpl in H; try discriminate.
-      assert (K : exists t, v = VStr t).
-      { revert v H. induction parts as [|p ps IHp]; intros v H; simpl in H.
-        - inversion H; eauto.
-        - destruct p; simpl in H.
-          + break_H H. inversion H; eauto.
-          + discriminate.
-          + break_H H. inversion H; eauto. }
-      destruct K as [t ->]. exists SStr. repeat split; auto.
-      intros df D. destruct df; [simpl in D; lia|]. reflexivity.
+      exists SStr. split; [|split]; auto.
+      + intros df D. destruct df; [simpl in D; lia|]. reflexivity.
+      + intros fuel c v0 Hs He H. destruct fuel; [discriminate|]. simpl in H.
+        destruct (eval fo fuel c e) as [item| | |] eqn:E1; simpl in H; try discriminate.
+        assert (K : exists t, v0 = VStr t).
+        { revert v0 H. induction parts as [|p ps IHp]; intros v0 H; simpl in H.
+          - inversion H; eauto.
+          - destruct p; simpl in H.
+            + break_H H. inversion H; eauto.
+            + discriminate.
+            + break_H H. inversion H; eauto. }
+        destruct K as [t ->]. reflexivity.
     - (* ECast *)
-      simpl in H. destruct (eval fo f c e) as [w| | |] eqn:E1; simpl in H; try discriminate.
-      destruct c0.
-      + assert (K : exists z, v = VInt z) by (unfold cast in H; break_H H; inversion H; eauto).
-        destruct K as [z ->]. exists SInt. repeat split; auto.
-        intros df D. destruct df; [simpl in D; lia|]. reflexivity.
-      + assert (K : exists z, v = VFloat z) by (unfold cast in H; break_H H; inversion H; eauto).
-        destruct K as [z ->]. exists SFloat. repeat split; auto.
-        intros df D. destruct df; [simpl in D; lia|]. reflexivity.
-      + assert (K : exists z, v = VStr z) by (unfold cast in H; break_H H; inversion H; eauto).
-        destruct K as [z ->]. exists SStr. repeat split; auto.
-        intros df D. destruct df; [simpl in D; lia|]. reflexivity.
-      + assert (K : exists z, v = VBool z) by (unfold cast in H; break_H H; inversion H; eauto).
-        destruct K as [z ->]. exists SBool. repeat split; auto.
-        intros df D. destruct df; [simpl in D; lia|]. reflexivity.
+      exists (match c with CInt => SInt | CStr => SStr | CFloat => SFloat | CBool => SBool end).
+      split; [|split].
+      + intros df D. destruct df; [simpl in D; lia|]. destruct c; reflexivity.
+      + destruct c; reflexivity.
+      + intros fuel c0 v0 Hs He H. destruct fuel; [discriminate|]. simpl in H.
+        destruct (eval fo fuel c0 e) as [w| | |] eqn:E1; simpl in H; try discriminate.
+        destruct c.
+        * assert (K : exists z, v0 = VInt z) by (unfold cast in H; break_H H; inversion H; eauto).
+          destruct K as [z ->]. reflexivity.
+        * assert (K : exists z, v0 = VFloat z) by (unfold cast in H; break_H H; inversion H; eauto).
+          destruct K as [z ->]. reflexivity.
+        * assert (K : exists z, v0 = VStr z) by (unfold cast in H; break_H H; inversion H; eauto).
+          destruct K as [z ->]. reflexivity.
+        * assert (K : exists z, v0 = VBool z) by (unfold cast in H; break_H H; inversion H; eauto).
+          destruct K as [z ->]. reflexivity.
+    - (* ESelect *)
+      apply andb_true_iff in F. destruct F as [F F3]. apply andb_true_iff in F. destruct F as [F1 F2].
+      simpl in Hd. apply le_S_n in Hd.
+      destruct (forall2_exists (fsound st) arms) as [ss FS].
+      { intros [k e1] I. rewrite forallb_forall in F1. specialize (F1 (k, e1) I). simpl in F1.
+        destruct (IH e1 st) as [s1 S1]; auto.
+        { pose proof (depth_fields_in (fun e1 => expr_depth e1) arms k e1 I). lia. }
+        exists (k, s1). split; auto. }
+      assert (DS : exists ds : option shape,
+                 match dflt, ds with
+                 | Some d, Some sd => sound_at st d sd
+                 | None, None => True
+                 | _, _ => False
+                 end).
+      { destruct dflt as [d|]; [|exists None; exact I].
+        destruct (IH d st) as [sd Sd]; auto. { simpl in Hd. lia. } exists (Some sd). exact Sd. }
+      destruct DS as [ds Hds].
+      set (all := map snd ss ++ match ds with Some sd => [sd] | None => [] end).
+      assert (OK : sel_ok_all [] all = true).
+      { unfold all. rewrite <- (fields_shapes st arms ss FS).
+        destruct dflt as [d|], ds as [sd|]; try contradiction; auto.
+        destruct Hds as [Dd _]. now rewrite <- (derive_st_of_f d st sd Dd). }
+      exists (SNarrowed (fold_left merge_in_shape all [])). split; [|split].
+      + intros df D. fuel_case df D. simpl.
+        apply (derive_select_P st arms ss dflt ds FS Hds); destruct dflt; simpl in *; lia.
+      + simpl. apply forallb_forall. intros x I. apply fold_merge_subset in I. destruct I as [[]|I].
+        unfold all in I. apply in_app_or in I. destruct I as [I|I].
+        * apply in_map_iff in I. destruct I as ([k s0] & <- & I).
+          pose proof (fields_hf st arms ss FS) as Hh. rewrite forallb_forall in Hh. apply (Hh (k, s0) I).
+        * destruct dflt as [d|], ds as [sd|]; try contradiction; destruct I as [<-|[]]. apply Hds.
+      + intros fuel c v0 Hs He H. destruct fuel; [discriminate|]. simpl in H.
+        destruct (eval fo fuel c e) as [w| | |] eqn:Ev; simpl in H; try discriminate.
+        match type of H with
+        | match ?h with Some _ => _ | None => _ end = _ => destruct h as [ae|] eqn:Hit
+        end.
+        * assert (Ia : exists k', In (k', ae) arms).
+          { match type of Hit with
+            | match ?kk with Some _ => _ | None => _ end = _ => destruct kk as [kx|]; [|discriminate]
+            end.
+            eapply find_arm_in; eauto. }
+          destruct Ia as [k' Ia].
+          destruct (forall2_in_l _ _ _ _ FS Ia) as ([k2 s0] & Is & K2 & _ & _ & E0). simpl in *.
+          apply (inh_narrowed_in v0 _ s0); [|eapply E0; eauto].
+          apply sel_ok_all_in; auto. unfold all. apply in_or_app. left.
+          change s0 with (snd (k2, s0)). now apply in_map.
+        * destruct dflt as [d|]; try discriminate. destruct ds as [sd|]; try contradiction.
+          destruct Hds as (_ & _ & Ed).
+          apply (inh_narrowed_in v0 _ sd); [|eapply Ed; eauto].
+          apply sel_ok_all_in; auto. unfold all. apply in_or_app. right. now left.
+    - (* EMap *)
+      apply andb_true_iff in F. destruct F as [F F3]. apply andb_true_iff in F. destruct F as [F1 F2].
+      simpl in Hd. apply le_S_n in Hd.
+      destruct (IH e2 st) as (ts & Dt & Ht & Et); auto; [lia|].
+      rewrite (derive_st_of_f e2 st ts Dt) in F3.
+      assert (Dfe : forall df, expr_depth e1 <= df -> exists s', derive_f df e1 st = (s', st)).
+      { apply orb_true_iff in F1. destruct F1 as [F1|F1].
+        - destruct (IH e1 st) as (sf & Df & _); auto; [lia|]. intros df D. eauto.
+        - destruct e1; try discriminate. intros df D. destruct df; [simpl in D; lia|].
+          destruct (derive_f_func_lit df params e1 st) as (s' & E' & _). eauto. }
+      exists SAny. split; [|split]; auto.
+      intros df D. fuel_case df D. simpl. rewrite Dt by lia.
+      destruct (Dfe df) as [s' E']; [lia|]. rewrite E'. destruct ts; try discriminate; reflexivity.
+    - (* EFilter *)
+      apply andb_true_iff in F. destruct F as [F F3]. apply andb_true_iff in F. destruct F as [F1 F2].
+      simpl in Hd. apply le_S_n in Hd.
+      destruct (IH e2 st) as (ts & Dt & Ht & Et); auto; [lia|].
+      rewrite (derive_st_of_f e2 st ts Dt) in F3.
+      assert (Dfe : forall df, expr_depth e1 <= df -> exists s', derive_f df e1 st = (s', st)).
+      { apply orb_true_iff in F1. destruct F1 as [F1|F1].
+        - destruct (IH e1 st) as (sf & Df & _); auto; [lia|]. intros df D. eauto.
+        - destruct e1; try discriminate. intros df D. destruct df; [simpl in D; lia|].
+          destruct (derive_f_func_lit df params e1 st) as (s' & E' & _). eauto. }
+      exists (filter_shape ts). split; [|split].
+      + intros df D. fuel_case df D. simpl. rewrite Dt by lia.
+        destruct (Dfe df) as [s' E']; [lia|]. rewrite E'. reflexivity.
+      + destruct ts; simpl; auto.
+      + intros fuel c v0 Hs He H. destruct fuel; [discriminate|]. simpl in H.
+        destruct (eval fo fuel c e1) as [fv| | |] eqn:Ef; simpl in H; try discriminate.
+        destruct (eval fo fuel c e2) as [tv| | |] eqn:Ev; simpl in H; try discriminate.
+        specialize (Et _ _ _ Hs He Ev).
+        destruct ts; try discriminate F3; try reflexivity.
+        * (* SStr *) destruct tv; try discriminate Et. destruct fv; try discriminate H.
+          break_H H. inversion H; reflexivity.
+        * (* SListAny *) destruct tv; try discriminate Et. destruct fv; try discriminate H.
+          break_H H. inversion H; reflexivity.
+        * (* SList *) destruct tv; try discriminate Et. destruct fv; try discriminate H.
+          destruct (negb (Nat.eqb (List.length params) 1)); try discriminate H.
+          match type of H with
+          | (do r <- ?m; _) = _ => destruct m as [r| | |] eqn:M; simpl in H; try discriminate H
+          end.
+          inversion H; subst. apply mapM_keep_snd in M.
+          apply (sublist_inh l); auto. intros x I. rewrite <- M.
+          apply in_map_iff in I. destruct I as (p & <- & I). apply filter_In in I. apply in_map. tauto.
     - (* ETrace *)
-      simpl in H. destruct (IH c e v st Hs Henv F H) as (s1 & D1 & G1 & I1).
-      exists s1. repeat split; auto.
-      intros df D. destruct df; [simpl in D; lia|]. simpl in D. apply le_S_n in D. simpl. now apply D1.
+      simpl in Hd. apply le_S_n in Hd.
+      destruct (IH e st Hd Hst F) as (s1 & D1 & H1 & E1).
+      exists s1. split; [|split]; auto.
+      + intros df D. fuel_case df D. simpl. now apply D1.
+      + intros fuel c v0 Hs He H. destruct fuel; [discriminate|]. simpl in H. eapply E1; eauto.
   Qed.
 
   Local Transparent bytes_eqb.
 
   (* C07 for one expression of the fragment *)
   Theorem derive_sound_fo : forall fuel c e v st,
-    strict fo c = true -> env_ok (sc fo c) st -> fragment_fo st e = true -> eval fo fuel c e = Ok v ->
+    strict fo c = true -> st_ok st -> env_ok (sc fo c) st -> fragment_fo st e = true -> eval fo fuel c e = Ok v ->
     ~ is_type_err (derive st e) /\ inhabits fo v (derive st e) /\ snd (derive_st e st) = st.
   Proof.
-    intros fuel c e v st Hs Henv F H.
-    destruct (derive_sound_aux fuel c e v st Hs Henv F H) as (s & D & G & I).
+    intros fuel c e v st Hs Hst Henv F H.
+    destruct (derive_sound_aux (expr_depth e) e st (le_n _) Hst F) as (s & D & G & E).
     rewrite (derive_st_of_f e st s D). unfold derive_st. rewrite D by lia.
-    repeat split; auto. unfold is_type_err. rewrite (ground_not_err s G). discriminate.
+    specialize (E _ _ _ Hs Henv H).
+    repeat split; auto. unfold is_type_err. rewrite (inh_not_err v s E). discriminate.
+  Qed.
+
+  (* without evaluating: deriving an expression of the fragment never touches the symbol table *)
+  Theorem derive_fragment_stable : forall e st,
+    st_ok st -> fragment_fo st e = true -> snd (derive_st e st) = st /\ hfb (derive st e) = true.
+  Proof.
+    intros e st Hst F.
+    destruct (derive_sound_aux (expr_depth e) e st (le_n _) Hst F) as (s & D & G & _).
+    rewrite (derive_st_of_f e st s D). unfold derive_st. rewrite D by lia. auto.
   Qed.
 
   Lemma env_ok_cons sc0 st x v s :
-    env_ok sc0 st -> groundb s = true -> inh v s = true -> env_ok ((x, v) :: sc0) (st_set x s st).
+    env_ok sc0 st -> inh v s = true -> env_ok ((x, v) :: sc0) (st_set x s st).
   Proof.
-    intros He G I y w L. simpl in *. destruct (bytes_eqb y x).
+    intros He I y w L. simpl in *. destruct (bytes_eqb y x).
     - inversion L; subst. eauto.
     - apply He; auto.
+  Qed.
+  Lemma st_ok_cons st x s : st_ok st -> hfb s = true -> st_ok (st_set x s st).
+  Proof.
+    intros Hst H y t G. simpl in G. destruct (bytes_eqb y x).
+    - inversion G; subst. exact H.
+    - eapply Hst; eauto.
+  Qed.
+
+  (* a let statement of the fragment (or binding a func literal): shape, table and value *)
+  Lemma let_rhs_sound st e :
+    st_ok st -> (fragment_fo st e || is_func_lit e) = true ->
+    exists s, derive_st e st = (s, st) /\ hfb s = true
+              /\ (forall fuel c v, strict fo c = true -> env_ok (sc fo c) st -> eval fo fuel c e = Ok v -> inh v s = true).
+  Proof.
+    intros Hst F. apply orb_true_iff in F. destruct F as [F|F].
+    - destruct (derive_sound_aux (expr_depth e) e st (le_n _) Hst F) as (s & D & G & E).
+      exists s. split; [|split]; auto. unfold derive_st. apply D. lia.
+    - destruct e; try discriminate.
+      unfold derive_st. remember (2 * expr_depth (EFunc params e) + 2) as df. destruct df; [lia|].
+      simpl. destruct (derive_f df e _) as [bs inner'].
+      eexists. split; [reflexivity|]. split; [reflexivity|].
+      intros fuel c v Hs He H. destruct fuel; [discriminate|]. simpl in H. inversion H; subst. reflexivity.
   Qed.
 
   (* C07 for programs: when evaluation (no checker) runs to completion, the checker accepts the program *)
   Theorem check_sound_prog : forall fuel p c st sc' cs,
-    strict fo c = true -> env_ok (sc fo c) st -> fragment_prog st p = true -> cstmts_of p = Some cs ->
+    strict fo c = true -> st_ok st -> env_ok (sc fo c) st -> fragment_prog st p = true -> cstmts_of p = Some cs ->
     exec_list fo fuel c p = Ok sc' ->
-    exists st', check_stmts cs st = Some st' /\ env_ok sc' st'.
+    exists st', check_stmts cs st = Some st' /\ st_ok st' /\ env_ok sc' st'.
   Proof.
-    induction fuel as [|f IH]; intros p c st sc' cs Hs Henv F C H; [discriminate|].
+    induction fuel as [|f IH]; intros p c st sc' cs Hs Hst Henv F C H; [discriminate|].
     destruct p as [|s p]; simpl in H.
     - inversion H; subst. inversion C; subst. simpl. eauto.
     - destruct s as [x e|e|e|t e]; simpl in F, C; try discriminate.
@@ -1670,48 +2349,61 @@ Section C07.
         destruct (eval fo f c e) as [v| | |] eqn:E; simpl in H; try discriminate.
         destruct (is_reserved x); simpl in H; try discriminate.
         destruct (lookup fo x (sc fo c)) eqn:L; simpl in H; try discriminate.
-        destruct (derive_sound_aux f c e v st Hs Henv Fe E) as (s & D & G & I).
-        assert (Henv' : env_ok (sc fo (with_scope fo c ((x, v) :: sc fo c))) (st_set x s st)).
-        { simpl. apply env_ok_cons; auto. }
-        rewrite <- (derive_st_of_f e st s D) in Henv' at 1.
-        destruct (IH p (with_scope fo c ((x, v) :: sc fo c)) (st_set x (derive st e) st) sc' cs') as (st' & K1 & K2); auto.
+        destruct (let_rhs_sound st e Hst Fe) as (s & D & G & I).
+        specialize (I _ _ _ Hs Henv E).
+        assert (Ds : derive st e = s) by (unfold derive; now rewrite D).
+        rewrite Ds in Fp.
+        destruct (IH p (with_scope fo c ((x, v) :: sc fo c)) (st_set x s st) sc' cs') as (st' & K1 & K2 & K3); auto.
+        { now apply st_ok_cons. }
+        { simpl. now apply env_ok_cons. }
         exists st'. split; auto.
-        simpl. unfold derive_st. rewrite D by lia.
-        rewrite (derive_st_of_f e st s D) in K1.
-        rewrite (ground_not_err s G).
+        simpl. rewrite D. rewrite (inh_not_err v s I).
         destruct s; try discriminate G; exact K1.
       + apply andb_true_iff in F. destruct F as [Fe Fp].
         destruct (cstmts_of p) as [cs'|] eqn:Cp; try discriminate. inversion C; subst cs. clear C.
         destruct (eval fo f c e) as [v| | |] eqn:E; simpl in H; try discriminate.
-        destruct (derive_sound_aux f c e v st Hs Henv Fe E) as (s & D & G & I).
+        destruct (derive_sound_aux (expr_depth e) e st (le_n _) Hst Fe) as (s & D & G & I).
+        specialize (I _ _ _ Hs Henv E).
         assert (Wc : with_scope fo c (sc fo c) = c) by (destruct c; reflexivity).
         rewrite Wc in H.
-        destruct (IH p c st sc' cs') as (st' & K1 & K2); auto.
+        destruct (IH p c st sc' cs') as (st' & K1 & K2 & K3); auto.
         exists st'. split; auto.
-        simpl. unfold derive_st. rewrite D by lia. rewrite (ground_not_err s G). exact K1.
+        simpl. unfold derive_st. rewrite D by lia. rewrite (inh_not_err v s I). exact K1.
   Qed.
+
+  (* the empty program state *)
+  Lemma st_ok_nil : st_ok [].
+  Proof. intros x s H. discriminate. Qed.
+  Lemma env_ok_nil : env_ok [] [].
+  Proof. intros x v H. discriminate. Qed.
 End C07.
 
 (* ------------------------------------------------------------------------------------------ *)
 (* 8. Not proved (statements only)                                                              *)
 (* ------------------------------------------------------------------------------------------ *)
 (* derive_sound_fo_calls_partial :
-     the statement of derive_sound_fo with fragment_fo extended by
-       - ECall (ESym f) args  where f is let-bound to an EFunc whose parameters are not let-bound names
-         (otherwise Known class k_param_shadow) and whose body is in the fragment,
-       - ECopy (ESym t) fs    where no overriding field value is NULL (otherwise Known class k_copy_null),
-       - EBin DOT l (EInt i)  where the list shape of l has no Narrowed/Any element (otherwise k_nested_narrowed),
-       - EBin AND/OR l r      where r is a comparison, a `not`, a boolean literal or again such an AND/OR
-                              (otherwise k_and_rhs),
-       - EBin IN l r,
-       - ESelect v None arms  (with a default: Known class k_select_default),
-       - EBin Add l r on lists whose derived element shape lists are equal (otherwise the k_list_concat classes).
-     For these the invariant "derived shape is ground" (groundb) no longer holds: shapes are Narrowed
-     (list elements, select) or Func, and narrowing against a Hole parameter updates the symbol table;
-     the proof needs the purity and inhabitation lemmas for that larger class.
+     the statement of derive_sound_fo / check_sound_prog with fragment_fo extended by
+       - ECall (ESym f) args   direct calls of let-bound functions.  The declared parameter shapes and the
+                               return shape come from ONE derivation of the body with the parameters as holes;
+                               a proof needs soundness of that derivation for every argument value.  It is false
+                               in general (class N4: a parameter narrowed by a branch the call does not execute);
+       - EMap f t on a list    result List(func.ret): the same function-body soundness;
+       - EReduce f acc t       result acc narrowed with func.ret: likewise;
+       - ECopy (ESym t) fs     direct copy of a tuple.  With last-wins lookup (05372e0) the shape base ++ overrides
+                               is right, but the proof needs the invariant "a tuple value has no repeated field",
+                               which inhabits/env_ok do not carry (merge_field replaces the FIRST field of a name);
+       - ENot e                when the derived shape of e is a candidate set (a3555a1 accepts nested candidates;
+                               the empty candidate set inside another one is still not "may_be_boolean");
+       - EBin AND/OR l r       when r is a comparison, a `not`, a boolean literal or again such an AND/OR
+                               (otherwise Known class K10);
+       - EBin IN l r, EBin REMatch l r;
+       - arithmetic where BOTH operand shapes are candidate sets, and `+` on lists with equal element
+         candidates (otherwise K1/K1b/K2);
+       - a func literal inside a tuple / list literal (its Func shape depends on the fuel of the enclosing
+         derivation; the statement "the same shape for every sufficient fuel" needs fuel-monotonicity of derive_f).
 
    narrow_compat_flat_partial :
-     forall (v : value fo) s1 s2 st, flat s1 -> flat s2 -> inhabits fo v s1 -> inhabits fo v s2 ->
-       ~ is_type_err (narrow st s1 s2) /\ inhabits fo v (narrow st s1 s2)
-     where flat s := s is primitive, Hole, Narrowed(Any), or Narrowed of primitives.
-     (narrow_compat_prim is the primitive/primitive case, narrow_compat_top_l the Any case.) *)
+     forall (v : value fo) s1 s2 st, dsb s1 = true -> dsb s2 = true -> inhabits fo v s1 -> inhabits fo v s2 ->
+       prim_shape_of v <> None -> ~ is_type_err (narrow st s1 s2)
+     (both shapes candidate sets; narrow_ds_prim / narrow_st_arith prove the case where one side is primitive). *)
+
